@@ -78,11 +78,15 @@ static Decoded decodeExact(Decoder& d, const Buf& b)
     }
     Bytes f = b.full();
     r.inputLen = f.size();
-    uint8_t* copy = static_cast<uint8_t*>(malloc(f.size() ? f.size() : 1));
+    // flush against the end of its own heap block (an over-read hits the redzone at once), at an address whose alignment varies
+    // with the buffer length (length % 8), as a frame behind a 14-byte Ethernet header is
+    const size_t off = f.size() % 8;
+    uint8_t* block = static_cast<uint8_t*>(malloc(f.size() + off ? f.size() + off : 1));
+    uint8_t* copy = block + off;
     memcpy(copy, f.data(), f.size());
     r.packets = d.decode(copy, f.size());
     r.inputChanged = memcmp(copy, f.data(), f.size()) != 0;
-    free(copy);
+    free(block);
     return r;
 }
 
